@@ -235,6 +235,8 @@ def _describe(obj, path, items):
 def _mutated(out, snap, who, op, label):
     ch = changed(snap)
     if ch is not None:
+        if callable(label):
+            label = label()
         out.viol('operand-mutated', '%s: operand %s was modified: %s' % (label, who, ch[0]), op=op, operand=who, depth=min(ch[1], 2))
         return True
     return False
@@ -286,7 +288,7 @@ def check_roundtrip(case):
             rest = list(flat)
             for g in got:
                 for j, (p, leaf) in enumerate(rest):
-                    if p == g[:-1] and leaf is _leaf_at(t, p) and g[-1] is leaf_of(t, p):
+                    if p == g[:-1] and _same_leaf(g[-1], _leaf_at(t, p)):
                         del rest[j]
                         break
                 else:
@@ -372,7 +374,8 @@ def _leaf_at(t, path):
     return node
 
 
-leaf_of = _leaf_at
+def _same_leaf(got, real):
+    return got is real or (type(got) is type(real) and type(real) is list and got == real)
 
 
 # ------------------------------------------------------------------------------------------------ suite: update_pairs
@@ -381,23 +384,22 @@ IGN = {'none': None, 'None': [None], 'None,1': [None, 1], 'x': ['x'], 'None,2': 
 SPELL = ['tuple', 'list', 'dotted']
 
 
+PLAN = {
+    'quick': [('T3', 'U2', ['none', 'x']), ('T2', 'UX', ['none', 'None', 'None,1', 'None,2']), ('TC2', 'UC2', ['none', 'x'])],
+    'thorough': [('T3', 'U3', ['none', 'None', 'None,1', 'x']), ('T4only', 'U2', ['none', 'x']), ('T3', 'UX', ['none', 'None', 'None,1', 'None,2']),
+                 ('TC3', 'UC2', ['none', 'x']), ('TC2', 'UX', ['None', 'None,1'])],
+}
+
+
 def gen_pairs(tier):
     """one case = one t x a whole u-family x an ignore menu"""
-    if tier == 'quick':
-        plan = [('T3', 'U2', ['none', 'x']), ('T2', 'UX', ['none', 'None', 'None,1', 'None,2']), ('TC2', 'UC2', ['none', 'x'])]
-    else:
-        plan = [('T3', 'U3', ['none', 'None', 'None,1', 'x']), ('T4only', 'U2', ['none', 'x']), ('T3', 'UX', ['none', 'None', 'None,1', 'None,2']),
-                ('TC3', 'UC2', ['none', 'x']), ('TC2', 'UX', ['None', 'None,1'])]
-    for tf, uf, igs in plan:
+    for tf, uf, igs in PLAN[tier]:
         for t in family(tf):
             yield {'t': t, 'us': uf, 'ign': igs}
 
 
 def pairs_count(tier):
-    return sum(len(family(tf)) * len(family(uf)) * len(igs) for tf, uf, igs in
-               ([('T3', 'U2', 2), ('T2', 'UX', 4), ('TC2', 'UC2', 2)] if tier == 'quick' else
-                [('T3', 'U3', 4), ('T4only', 'U2', 2), ('T3', 'UX', 4), ('TC3', 'UC2', 2), ('TC2', 'UX', 2)])
-               for igs in [[0] * igs])
+    return sum(len(family(tf)) * len(family(uf)) * len(igs) for tf, uf, igs in PLAN[tier])
 
 
 def check_pairs(case):
@@ -446,7 +448,7 @@ def check_pairs(case):
                 t, tsnap = ts[tk]
                 u = build(uitems, *ulayouts[uk])
                 usnap = snapshot(u)
-                label = '%s(t=%s %s, u=%s %s, ignore=%r)' % (op, layouts[tk][0].__name__, tshow, ulayouts[uk][0].__name__, show(mu, 200), ignore)
+                label = lambda: '%s(t=%s %s, u=%s %s, ignore=%r)' % (op, layouts[tk][0].__name__, tshow, ulayouts[uk][0].__name__, show(mu, 200), ignore)
                 try:
                     if op == 'tree_update':
                         r = tree_update(t, u) if ignore is None else tree_update(t, u, ignore=_ig(ignore))
@@ -456,11 +458,11 @@ def check_pairs(case):
                         r = items_to_tree(tree_items(u), tree=t, ignore=_ig(ignore))
                     out.call()
                 except Exception as e:
-                    out.viol('raised', '%s raised %s: %s' % (label, type(e).__name__, e), op=op, exc=type(e).__name__, u=uk)
+                    out.viol('raised', '%s raised %s: %s' % (label(), type(e).__name__, e), op=op, exc=type(e).__name__, u=uk)
                     fresh_t(tk)
                     continue
                 if not isinstance(r, dict) or plain(r) != expect:
-                    out.viol('merge-differs', '%s = %s, expected %s' % (label, show(plain(r)), show(expect)), op=op, cls=c.rstrip('+'))
+                    out.viol('merge-differs', '%s = %s, expected %s' % (label(), show(plain(r)), show(expect)), op=op, cls=c.rstrip('+'))
                 if _mutated(out, tsnap, 't', op, label):
                     fresh_t(tk)
                 _mutated(out, usnap, 'u', op, label)
@@ -471,7 +473,7 @@ def check_pairs(case):
                     for lk in ('A', 'B', 'C') if si == 0 else ('A',):
                         cpy = build(titems, *layouts[lk])
                         spelled = tuple(path) if sp == 'tuple' else list(path) if sp == 'list' else '.'.join(path)
-                        label = 'tree_setitem(copy of %s %s, %r, %r, ignore=%r)' % (layouts[lk][0].__name__, tshow, spelled, value, ignore)
+                        label = 'tree_setitem(copy of %s %s, %r, %r, ignore=%r)' % (layouts[lk][0].__name__, tshow, list(path) if sp == 'list' else spelled, value, ignore)
                         try:
                             rv = tree_setitem(cpy, spelled, value) if ignore is None else tree_setitem(cpy, spelled, value, ignore=_ig(ignore))
                             out.call()
@@ -519,7 +521,7 @@ def check_chain(case):
     titems, uitems = _with_leaf(case['t'], CHAIN_LEAF['t']), _with_leaf(case['u'], CHAIN_LEAF['u'])
     t, u = build(titems, *types[tk]), build(uitems, *types[ok])
     mt, mu = build(titems), build(uitems)
-    kept = [('t', snapshot(t), t, mt), ('u', snapshot(u), u, mu)]       # (name, snapshot, object, model)
+    kept = [('t', snapshot(t), t, mt), ('u', snapshot(u), u, mu)]       # (name, snapshot, object, model): everything built so far stays alive and is re-inspected
 
     def verify(label, op):
         """every kept operand / earlier result: identity+content snapshot and equality with its model"""
@@ -528,12 +530,12 @@ def check_chain(case):
             if _mutated(out, snap, name, op, label):
                 bad = True
             elif plain(obj) != model:
-                out.viol('operand-mutated', '%s: %s no longer equals its model %s: %s' % (label, name, show(model), show(plain(obj))), op=op, operand=name, depth=2)
+                out.viol('operand-mutated', '%s: %s no longer equals its model %s: %s' % (label(), name, show(model), show(plain(obj))), op=op, operand=name, depth=2)
                 bad = True
         return bad
 
     def step(name, a, ma, b, mb, label):
-        """r = tree_update(a, b) against the model; returns (r, model) or None"""
+        """r = tree_update(a, b) against the model; returns (r, model, flags), r None when it failed"""
         flags = set()
         expect = merge(ma, mb, (), flags)
         out.sub()
@@ -542,16 +544,17 @@ def check_chain(case):
             r = tree_update(a, b)
             out.call()
         except Exception as e:
-            out.viol('raised', '%s raised %s: %s' % (label, type(e).__name__, e), op='chain-' + name, exc=type(e).__name__)
+            out.viol('raised', '%s raised %s: %s' % (label(), type(e).__name__, e), op='chain-' + name, exc=type(e).__name__)
             return None, None, flags
         if not isinstance(r, dict) or plain(r) != expect:
-            out.viol('merge-differs', '%s = %s, expected %s' % (label, show(plain(r)), show(expect)), op='chain-' + name, cls=klass(flags).rstrip('+'))
+            out.viol('merge-differs', '%s = %s, expected %s' % (label(), show(plain(r)), show(expect)), op='chain-' + name, cls=klass(flags).rstrip('+'))
             return None, None, flags
         return r, expect, flags
 
-    base = 't=%s u=%s (%s)' % (show(mt, 120), show(mu, 120), kind)
-    r1, m1, f1 = step('r1', t, mt, u, mu, 'r1 = tree_update(t, u) with ' + base)
-    if verify('after r1 = tree_update(t, u) with ' + base, 'chain-r1') or r1 is None:
+    base = 't=%s u=%s (layout %s)' % (show(mt, 120), show(mu, 120), kind)
+    label1 = lambda: 'r1 = tree_update(t, u) with ' + base
+    r1, m1, f1 = step('r1', t, mt, u, mu, label1)
+    if verify(label1, 'chain-r1') or r1 is None:
         return out
     kept.append(('r1', snapshot(r1), r1, m1))
     for vi, vshape in enumerate(S):
@@ -559,18 +562,17 @@ def check_chain(case):
         mv = build(vitems)
         for dirn in ('L', 'R'):
             v = build(vitems, *types[ok if dirn == 'L' else tk])
-            vrec = ('v', snapshot(v), v, mv)
-            kept.append(vrec)
+            kept.append(('v', snapshot(v), v, mv))
             if dirn == 'L':
-                label = 'r1 = tree_update(t, u); r2 = tree_update(r1, v) with %s v=%s' % (base, show(mv, 120))
-                r2, m2, f2 = step('r2', r1, m1, v, mv, label)
+                label2 = lambda: 'r1 = tree_update(t, u); r2 = tree_update(r1, v) with %s v=%s' % (base, show(mv, 120))
+                r2, m2, f2 = step('r2', r1, m1, v, mv, label2)
             else:
-                label = 'r1 = tree_update(t, u); r2 = tree_update(v, r1) with %s v=%s' % (base, show(mv, 120))
-                r2, m2, f2 = step('r2', v, mv, r1, m1, label)
+                label2 = lambda: 'r1 = tree_update(t, u); r2 = tree_update(v, r1) with %s v=%s' % (base, show(mv, 120))
+                r2, m2, f2 = step('r2', v, mv, r1, m1, label2)
             if f1 and f2:
                 out.nontrivial('%d%s' % (vi, dirn))
-            if verify('after ' + label, 'chain-r2'):
-                return out          # the kept objects are no longer what the model says; everything later would be noise
+            if verify(label2, 'chain-r2'):
+                return out          # a kept object is no longer what its model says; everything later would be noise
             if r2 is not None and depth >= 3 and dirn == 'L':
                 kept.append(('r2', snapshot(r2), r2, m2))
                 for wi, wshape in enumerate(S):
@@ -578,15 +580,15 @@ def check_chain(case):
                     mw = build(witems)
                     w = build(witems, *types[ok])
                     kept.append(('w', snapshot(w), w, mw))
-                    label3 = '%s; r3 = tree_update(r2, w) with w=%s' % (label, show(mw, 120))
+                    label3 = lambda: '%s; r3 = tree_update(r2, w) with w=%s' % (label2(), show(mw, 120))
                     r3, m3, f3 = step('r3', r2, m2, w, mw, label3)
                     if f1 and f2 and f3:
                         out.nontrivial('%d/%d' % (vi, wi))
-                    if verify('after ' + label3, 'chain-r3'):
+                    if verify(label3, 'chain-r3'):
                         return out
-                    kept.pop()
-                kept.pop()
-            kept.remove(vrec)
+                    kept.pop()      # w
+                kept.pop()          # r2
+            kept.pop()              # v
     return out
 
 
